@@ -21,8 +21,12 @@ PROVED
          The same for statements WITH a column list (`pairs_exact_collist_partial`, `owners_exact_collist_partial`,
          `edges_exact_collist_partial`, `analyze_total_collist_partial`; `INSERT INTO T (c1..cn) <q>`, `CREATE VIEW T (c1..cn)
          AS <q>`, n = number of select items, names pairwise different, `T` not read): item `i` is wired to `ci` BY POSITION
-         (`ColumnsExact.specPairsPos`).  And `select_moves_no_column_partial`: the holder of a plain SELECT over base
-         tables is exactly the reads of its FROM clause.
+         (`ColumnsExact.specPairsPos`).  The same over a SET OPERATION (`pairs_exact_setop_partial`,
+         `owners_exact_setop_partial`, `edges_exact_setop_partial`, `analyze_total_setop_partial`; any number of flat branches of
+         equal arity, every item of the first branch with a source and the first branch's names pairwise different): the
+         first branch by its own names, the others BY POSITION onto them (`ColumnsExact.specPairsUnion`).  And
+         `select_moves_no_column_partial`: the holder of a plain SELECT over base tables is exactly the reads of its FROM
+         clause.
 
 NOT PROVED (kept as a comment at the end): `pairs_exact` for all of `Frag02` — see the list there.  What ties the rest to the
 code is the SQL‑level correspondence of `harness/c02.py`.
@@ -409,6 +413,80 @@ theorem edges_exact_collist_partial (env : Env) (silent : Bool) (s : Stmt) (g : 
     · exact ((hx.hasColumn u v).mpr h1).1
     · exact ((hx.hasAlias u v).mpr h1).1
 
+/-! #### set operations: the first branch names the columns, the other branches are wired BY POSITION
+
+`INSERT INTO T <b1> UNION [ALL] <b2> …` (also CTAS / CREATE VIEW; `fragStmtSetop`): every branch one flat SELECT block as above,
+`T` read by none of them and denoted by no qualifier, the same number of items in every branch, every item of the FIRST
+branch has at least one source column and the first branch's item names are pairwise different (so that it creates exactly
+as many write columns as the other branches have items — the literal case is finding D6), written aliases unambiguous per
+branch and a table carrying the same alias wherever it occurs in the statement (`aliasConsistent`: the alias edges of ALL
+branches are in the holder while one branch is resolved).  Then (`specPairsUnion`): the first branch is wired by its own
+item names, item `i` of every other branch to the column named by item `i` of the first branch. -/
+
+theorem analyze_total_setop_partial (env : Env) (silent : Bool) (s : Stmt) (hp : env.prov.truthy = false)
+    (hs : fragStmtSetop env s = true) : ∃ g, analyze env silent s = .ok g := by
+  obtain ⟨g, hg, _⟩ := analyze_exact_setop env silent s hp hs
+  exact ⟨g, hg⟩
+
+/-- **`pairs_exact` over a set operation** -/
+theorem pairs_exact_setop_partial (env : Env) (silent : Bool) (s : Stmt) (g : LGraph) (hp : env.prov.truthy = false)
+    (hs : fragStmtSetop env s = true) (h : analyze env silent s = .ok g) (u v : Node) :
+    ((u, v) ∈ g.edges ∧ g.ety u v = some .lineage) ↔ (u, v) ∈ specPairsUnion env (stmtTarget s) (stmtParts s) := by
+  obtain ⟨g', hg', hx⟩ := analyze_exact_setop env silent s hp hs
+  rw [h] at hg'
+  cases hg'
+  exact hx.lineage u v
+
+/-- the same, written out: the pairs of the first branch `b1` as in `pairs_exact_flat_unfolded_partial`; for every other
+    branch `b`, item `i` of `b` with item `i` of `b1` -/
+theorem pairs_exact_setop_unfolded_partial (env : Env) (silent : Bool) (s : Stmt) (g : LGraph) (hp : env.prov.truthy = false)
+    (hs : fragStmtSetop env s = true) (h : analyze env silent s = .ok g) (b1 : List Item × List FromExpr)
+    (rest : List (List Item × List FromExpr)) (hparts : stmtParts s = b1 :: rest) (u v : Node) :
+    ((u, v) ∈ g.edges ∧ g.ety u v = some .lineage) ↔
+      (∃ e a k, Item.mk e a k ∈ b1.1 ∧ ∃ r ∈ refs e,
+        u ∈ srcKeys env.importDefault (fromTabs env b1.2) (normRef r) ∧
+        v = (tgtCol env (stmtTarget s) (.mk e a k)).key) ∨
+      (∃ b ∈ rest, ∃ e a k it1, (Item.mk e a k, it1) ∈ b.1.zip b1.1 ∧ ∃ r ∈ refs e,
+        u ∈ srcKeys env.importDefault (fromTabs env b.2) (normRef r) ∧ v = (tgtCol env (stmtTarget s) it1).key) := by
+  rw [pairs_exact_setop_partial env silent s g hp hs h, hparts]
+  simp only [specPairsUnion, List.mem_append, List.mem_flatMap, mem_specPairs, mem_unionBranchPairs]
+
+/-- HAS_COLUMN edges over a set operation: the owners of the pairs, nothing else -/
+theorem owners_exact_setop_partial (env : Env) (silent : Bool) (s : Stmt) (g : LGraph) (hp : env.prov.truthy = false)
+    (hs : fragStmtSetop env s = true) (h : analyze env silent s = .ok g) (u v : Node) :
+    ((u, v) ∈ g.edges ∧ g.ety u v = some .hasColumn) ↔
+      (u, v) ∈ specOwners (specPairsUnion env (stmtTarget s) (stmtParts s)) := by
+  obtain ⟨g', hg', hx⟩ := analyze_exact_setop env silent s hp hs
+  rw [h] at hg'
+  cases hg'
+  have := hx.hasColumn u v
+  simpa using this
+
+/-- … and there is no other edge than these and the alias edges of the table references of all branches -/
+theorem edges_exact_setop_partial (env : Env) (silent : Bool) (s : Stmt) (g : LGraph) (hp : env.prov.truthy = false)
+    (hs : fragStmtSetop env s = true) (h : analyze env silent s = .ok g) (u v : Node) :
+    (u, v) ∈ g.edges ↔
+      (u, v) ∈ specPairsUnion env (stmtTarget s) (stmtParts s) ∨
+      (u, v) ∈ specOwners (specPairsUnion env (stmtTarget s) (stmtParts s)) ∨
+      aliasPair ((stmtParts s).flatMap (fun b => fromTabs env b.2)) u v := by
+  obtain ⟨g', hg', hx⟩ := analyze_exact_setop env silent s hp hs
+  rw [h] at hg'
+  cases hg'
+  constructor
+  · intro he
+    have hy := Graph.ety_of_mem g u v he
+    cases ht : g.etype u v with
+    | lineage => exact Or.inl ((hx.lineage u v).mp ⟨he, by rw [hy, ht]⟩)
+    | hasColumn =>
+      have := (hx.hasColumn u v).mp ⟨he, by rw [hy, ht]⟩
+      exact Or.inr (Or.inl (by simpa using this))
+    | hasAlias => exact Or.inr (Or.inr ((hx.hasAlias u v).mp ⟨he, by rw [hy, ht]⟩))
+    | rename => exact absurd (by rw [hy, ht]) (hx.noRename u v he)
+  · rintro (h1 | h1 | h1)
+    · exact ((hx.lineage u v).mpr h1).1
+    · exact ((hx.hasColumn u v).mpr (Or.inr h1)).1
+    · exact ((hx.hasAlias u v).mpr h1).1
+
 /-! #### reading the specification (all by `ColumnsExact`): keys of target and source columns, what a qualifier denotes -/
 
 /-- target column key: `<written table>.<item name>` owned by the written table -/
@@ -518,6 +596,18 @@ def exStarJoin : Stmt :=
         [.mk "join" (.table ["s", "tb"] (some "b") false) (some (.bin "=" (.col ["a"] "k") (.col ["b"] "k"))) []]]
       none [] none)
 
+/-- `insert into s.tgt select x.a, b + 1 as f from s1.t1 x union all select p, 0 as z from s1.t2 union select u.q as qq, u.r
+    from s1.t3 as u`: the first branch names the columns `a`, `f`; `p → a`, nothing from the literal, `q → a`, `r → f` -/
+def exUnion : Stmt :=
+  .insert .insertInto false ["s", "tgt"] none
+    (.setop
+      (.mk (.select false [.mk (.col ["x"] "a") none false, .mk (.bin "+" (.col [] "b") (.lit "1")) (some "f") true]
+        [.mk (.table ["s1", "t1"] (some "x") false) []] none [] none) false)
+      [.mk "union all" (.mk (.select false [.mk (.col [] "p") none false, .mk (.lit "0") (some "z") true]
+        [.mk (.table ["s1", "t2"] none false) []] none [] none) false),
+       .mk "union" (.mk (.select false [.mk (.col ["u"] "q") (some "qq") true, .mk (.col ["u"] "r") none false]
+        [.mk (.table ["s1", "t3"] (some "u") true) []] none [] none) false)]) false
+
 /-- the LINEAGE edges of an analysis result, in graph order -/
 def lineageEdges (r : Except Err LGraph) : List (Node × Node) :=
   match r with
@@ -582,6 +672,19 @@ example : lineageEdges (analyze {} false exStarJoin) =
 
 example : specPairs {} (stmtTarget exStarJoin) (stmtItems exStarJoin) (stmtFrom exStarJoin) =
     lineageEdges (analyze {} false exStarJoin) := by decide +kernel
+
+example : fragStmtSetop {} exUnion = true := by decide +kernel
+
+example : lineageEdges (analyze {} false exUnion) =
+    [(.col "s1.t1.a" (some (.table "s1" "t1")), .col "s.tgt.a" (some (.table "s" "tgt"))),
+     (.col "s1.t1.b" (some (.table "s1" "t1")), .col "s.tgt.f" (some (.table "s" "tgt"))),
+     (.col "s1.t2.p" (some (.table "s1" "t2")), .col "s.tgt.a" (some (.table "s" "tgt"))),
+     (.col "s1.t3.q" (some (.table "s1" "t3")), .col "s.tgt.a" (some (.table "s" "tgt"))),
+     (.col "s1.t3.r" (some (.table "s1" "t3")), .col "s.tgt.f" (some (.table "s" "tgt")))] := by
+  decide +kernel
+
+example : specPairsUnion {} (stmtTarget exUnion) (stmtParts exUnion) = lineageEdges (analyze {} false exUnion) := by
+  decide +kernel
 
 example : fragStmtCols {} exCols = true := by decide +kernel
 
@@ -660,15 +763,16 @@ end endToEnd
     theorem pairs_exact (s : Stmt) (h : Frag02 s) : pairs (Runner.eval c md [s]) = Spec.colflow env s
   where `Spec.colflow` is the denotational dataflow of Appendix B.
 
-  Proved: the restrictions `pairs_exact_flat_partial` (§5) to `ColumnsExact.fragStmt` and `pairs_exact_collist_partial` to
-  `ColumnsExact.fragStmtCols`, stated on the LINEAGE edges of the statement holder `analyze env silent s` against
-  `ColumnsExact.specPairs` / `specPairsPos`.  Missing for the full statement:
+  Proved: the restrictions `pairs_exact_flat_partial` (§5) to `ColumnsExact.fragStmt`, `pairs_exact_collist_partial` to
+  `ColumnsExact.fragStmtCols` and `pairs_exact_setop_partial` to `ColumnsExact.fragStmtSetop`, stated on the LINEAGE edges of
+  the statement holder `analyze env silent s` against `ColumnsExact.specPairs` / `specPairsPos` / `specPairsUnion`.  Missing for the full statement:
     * inside one flat block: unqualified references over several table references that all denote the SAME relation, ambiguous written aliases,
       a qualifier denoting a written table that is not read (`dev_unknown_qualifier_positional`: the model and the code
       wire by position there);
-    * a column list whose length differs from the number of select items or that goes with a self‑reading statement, a
-      metadata provider (target columns of an INSERT by POSITION from the provider; wildcard expansion), set operations
-      (union barriers; D6);
+    * a column list whose length differs from the number of select items (`dev_collist_length_mismatch`) or that goes with
+      a self‑reading statement or a set operation, a metadata provider (target columns of an INSERT by POSITION from the
+      provider; wildcard expansion), set operations whose first branch has a source‑less item (D6), repeated names or
+      another arity than the other branches, or that read the written table;
     * nested queries (derived tables, CTEs, subqueries in expressions): the same invariant through the 30‑function mutual
       recursion of `Model/Walk.lean`, with sub‑holders composed by `composeSub`; a select‑item subquery is not modelled at
       all (`_get_column_from_subquery`);
